@@ -73,6 +73,26 @@ theorem record_receives_outcome (np n : Nat) (d : Det) (s s' : RunState) (q : QR
   · injection h with h; rw [← h]; rfl
   · cases h
 
+/-- **The classical record equals the outcomes, whole run**: the values written to the classical registers are, in
+    order, exactly the outcomes of the measurements executed (every measuring operation — Z-measurement, classical
+    CNOT/CZ, measure-and-reset — writes its own outcome), one randomness flag per outcome. -/
+theorem record_equals_outcomes (ne np : Nat) (d : Det) (script : List Bool) (ops : List COp) (s : RunState)
+    (h : stabRun ne np d script ops = some s) : s.writes.map (·.2) = s.outs ∧ s.rand.length = s.outs.length :=
+  DMH.stabRun_book ne np d script ops s h
+
+/-- **Each measurement setting, whole run** ("forced 0, forced 1, probabilistic conditioned on the outcomes actually
+    drawn"): with `randOuts s` = the outcomes of the random measurements in order and `nRand s` their number —
+    forced 0: all of them are 0 and the script is untouched; forced 1: all are 1; probabilistic: they are the first
+    `nRand s` drawn bits in order and exactly these were consumed. -/
+theorem settings_whole_run (ne np : Nat) (d : Det) (script : List Bool) (ops : List COp)
+    (hwf : ∀ op, op ∈ ops → op.WF np) (s : RunState) (h : stabRun ne np d script ops = some s) :
+    (d = .zero → s.script = script ∧ ∀ o, o ∈ DMH.randOuts s → o = false) ∧
+    (d = .one → s.script = script ∧ ∀ o, o ∈ DMH.randOuts s → o = true) ∧
+    (d = .prob → s.script = script.drop (DMH.nRand s) ∧
+        DMH.randOuts s = (List.range (DMH.nRand s)).map fun i => script.getD i false) := by
+  have h2 := (DMH.stabRun_drawn ne np d script ops hwf s h).2
+  refine ⟨fun e => ?_, fun e => ?_, fun e => ?_⟩ <;> subst e <;> exact h2
+
 /-- **Wrapper expansion order**: a wrapped list is executed last-listed-first — the same order in which the matrix product of
     the list (C20 `wrapper_denotes_product`) acts on a state -/
 theorem wrapper_applies_last_listed_first (np n : Nat) (d : Det) (s : RunState) (gs : List Cliff.Gen) (g : Cliff.Gen) (q : QReg)
